@@ -286,6 +286,7 @@ func TestC14_AlterPlain(t *testing.T) {
 	h.MarkExhaustive("alter-plain")
 	ks := keySeeds(6)[5]
 	classes := append(allPrivateClasses(), sm9PubKinds...)
+	isPub := func(kc string) bool { return kc == "sm9-signmasterpub" || kc == "sm9-encmasterpub" }
 	h.Sweep(t, h.P{Name: "alter-plain"}, func(emit func(altCase)) {
 		i := 0
 		for _, kc := range classes {
@@ -298,7 +299,7 @@ func TestC14_AlterPlain(t *testing.T) {
 				}
 				emitAlterations(cspec{Key: kc, KSeed: ks, Cont: cont}, emit)
 			}
-			if kc == "rsa-2048" && !h.Thorough() {
+			if kc == "rsa-2048" && !h.Thorough() || isPub(kc) {
 				continue
 			}
 			i++
